@@ -1,18 +1,172 @@
-"""Sanitizer / interpreter legs (thorough tiers). Filled in incrementally;
-a leg that cannot run reports itself as inconclusive, never as a verdict."""
+"""Sanitizer / interpreter legs (thorough tiers): Miri over the harness,
+ThreadSanitizer over the walker stress and rg -jN, AddressSanitizer over the
+fault workloads. A leg that cannot run (tool missing, build failure, watchdog)
+reports itself as inconclusive, never as a verdict. A report counts as a
+violation of the property whose workload was running only when the
+de-duplicated report has a frame under /repo/crates; reports entirely inside
+third-party crates are logged as inconclusive notes."""
+
+import json
+import os
+import re
+import subprocess
+import tempfile
+import time
 
 import common
 
+HARNESS = os.path.join(common.VERIF, "harness")
+MIRI_TARGET = os.path.join(common.TARGET, "miri")
+TSAN_TARGET = os.path.join(common.TARGET, "harness-tsan")
 
-def _todo(name):
+
+def _classify(prop, tool, text, rep, what):
+    """text: sanitizer/interpreter report"""
+    frames = re.findall(r"(/repo/crates/[^\s:]+:\d+)", text)
+    first = frames[0] if frames else None
+    kind = "report"
+    m = re.search(r"error: (Undefined Behavior|Data race[^\n]*|[^\n]{0,80})", text)
+    if m:
+        kind = m.group(1)[:60]
+    if "unsupported operation" in text:
+        rep["inconclusive"] += 1
+        rep["notes"].append("%s: unsupported operation (inconclusive): %s" % (tool, text[text.find("unsupported"):][:200]))
+        return
+    if first:
+        sig = "%s:%s:%s" % (prop, tool, re.sub(r":\d+$", "", first).replace("/repo/crates/", ""))
+        rep["violation_counts"][sig] = rep["violation_counts"].get(sig, 0) + 1
+        if rep["violation_counts"][sig] <= 2:
+            rep["violations"].append({"signature": sig, "what": "%s %s with a frame in ripgrep code (%s): %s" % (tool, kind, first, what),
+                                      "replay": {"tool": tool, "what": what, "report": text[-6000:]}})
+    else:
+        rep["inconclusive"] += 1
+        rep["notes"].append("%s report entirely in third-party code (inconclusive): %s" % (tool, text[-300:].replace("\n", " | ")))
+
+
+def miri_shards(prop, sub, seed, shards, cases, flags, timeout=3000):
+    """run `rgmon <sub> --cases N` under Miri in `shards` processes"""
     rep = common.empty_report()
-    rep["notes"].append("%s leg not built yet" % name)
+    env = dict(common.CARGO_ENV, CARGO_TARGET_DIR=MIRI_TARGET, MIRIFLAGS=flags,
+               RGMON_TMP=common.scratch_root())
+    # build once (serialised), then run the shards in parallel
+    b = subprocess.run(["cargo", "+nightly", "miri", "run", "--offline", "--", "nothing"], cwd=HARNESS, env=env,
+                       stdout=subprocess.PIPE, stderr=subprocess.PIPE, text=True)
+    if "Finished" not in b.stderr and b.returncode not in (0, 2):
+        rep["inconclusive"] += 1
+        rep["notes"].append("miri build failed: " + b.stderr[-400:])
+        return rep
+    procs = []
+    for i in range(shards):
+        out = os.path.join(common.scratch_root(), "miri-%s-%d.json" % (sub, i))
+        if sub in ("c07-miri",):
+            cmd = ["cargo", "+nightly", "miri", "run", "--offline", "--", sub, "--seed", str(seed * 1000 + i), "--out", out]
+        else:
+            cmd = ["cargo", "+nightly", "miri", "run", "--offline", "--", sub, "--tier", "quick", "--seed", str(seed * 1000 + i),
+                   "--jobs", "1", "--cases", str(cases), "--out", out]
+        procs.append((subprocess.Popen(cmd, cwd=HARNESS, env=env, stdout=subprocess.PIPE, stderr=subprocess.PIPE, text=True), out, i))
+    t0 = time.time()
+    for p, out, i in procs:
+        try:
+            so, se = p.communicate(timeout=max(10, timeout - (time.time() - t0)))
+        except subprocess.TimeoutExpired:
+            p.kill()
+            p.communicate()
+            rep["inconclusive"] += 1
+            rep["notes"].append("miri shard %d: watchdog (inconclusive)" % i)
+            continue
+        rep["counters"]["miri_processes"] = rep["counters"].get("miri_processes", 0) + 1
+        if p.returncode != 0:
+            _classify(prop, "miri", se, rep, "%s shard %d" % (sub, i))
+            continue
+        try:
+            with open(out) as f:
+                r = json.load(f)
+            os.unlink(out)
+        except Exception:
+            rep["inconclusive"] += 1
+            rep["notes"].append("miri shard %d left no report" % i)
+            continue
+        rep["evaluations"] += r.get("evaluations", 0)
+        rep["distinct_nontrivial"] += r.get("distinct_nontrivial", 0)
+        for k, v in r.get("counters", {}).items():
+            rep["counters"][k] = rep["counters"].get(k, 0) + v
+        rep["violations"] += r.get("violations", [])
+        for k, v in r.get("violation_counts", {}).items():
+            rep["violation_counts"][k] = rep["violation_counts"].get(k, 0) + v
+        if r.get("samples") and len(rep["samples"]) < 1:
+            rep["samples"].append({"under_miri": r["samples"][0]})
     return rep
 
 
-def c07_tsan_leg(tier, seed):
-    return _todo("tsan")
+def miri_leg(prop, cases, shards=16, flags="-Zmiri-disable-isolation"):
+    def leg(tier, seed):
+        return miri_shards(prop, prop.lower(), seed, shards, cases, flags)
+    return leg
 
 
 def c07_miri_leg(tier, seed):
-    return _todo("miri")
+    flags = ("-Zmiri-disable-isolation -Zmiri-tree-borrows -Zmiri-permissive-provenance -Zmiri-ignore-leaks "
+             "-Zmiri-many-seeds=0..4")
+    return miri_shards("C07", "c07-miri", seed, 16, 0, flags)
+
+
+def build_tsan_harness():
+    with common._Lock(".lock-harness-tsan"):
+        env = dict(common.CARGO_ENV, CARGO_TARGET_DIR=TSAN_TARGET, RUSTFLAGS="-Zsanitizer=thread")
+        common._run_build(["cargo", "+nightly", "build", "--release", "--offline", "-Zbuild-std",
+                           "--target", "x86_64-unknown-linux-gnu"], HARNESS, env, "rgmon (tsan)")
+    return os.path.join(TSAN_TARGET, "x86_64-unknown-linux-gnu", "release", "rgmon")
+
+
+def c07_tsan_leg(tier, seed):
+    rep = common.empty_report()
+    try:
+        exe = build_tsan_harness()
+    except common.Broken as e:
+        rep["inconclusive"] += 1
+        rep["notes"].append("tsan build failed: %s" % e)
+        return rep
+    procs = []
+    for i in range(8):
+        out = os.path.join(common.scratch_root(), "tsan-%d.json" % i)
+        log = os.path.join(common.scratch_root(), "tsan-%d.log" % i)
+        env = dict(os.environ, RGMON_TMP=common.scratch_root(),
+                   TSAN_OPTIONS="halt_on_error=0 exitcode=66 log_path=%s" % log)
+        procs.append((subprocess.Popen([exe, "c07-stress", "--seed", str(seed * 100 + i), "--runs", "25", "--out", out],
+                                       env=env, stdout=subprocess.PIPE, stderr=subprocess.PIPE, text=True), out, log, i))
+    for p, out, log, i in procs:
+        try:
+            p.communicate(timeout=1800)
+        except subprocess.TimeoutExpired:
+            p.kill()
+            rep["inconclusive"] += 1
+            rep["notes"].append("tsan shard %d: watchdog" % i)
+            continue
+        rep["counters"]["tsan_processes"] = rep["counters"].get("tsan_processes", 0) + 1
+        import glob
+        reports = ""
+        for lf in glob.glob(log + "*"):
+            reports += open(lf, errors="replace").read()
+            os.unlink(lf)
+        blocks = [b for b in reports.split("==================") if "WARNING: ThreadSanitizer" in b]
+        rep["counters"]["tsan_report_blocks"] = rep["counters"].get("tsan_report_blocks", 0) + len(blocks)
+        seen = set()
+        for b in blocks:
+            key = re.sub(r"0x[0-9a-f]+|:\d+", "", "".join(re.findall(r"#0 [^\n]*", b)))
+            if key in seen:
+                continue
+            seen.add(key)
+            _classify("C07", "tsan", b, rep, "walker stress shard %d" % i)
+        try:
+            with open(out) as f:
+                r = json.load(f)
+            os.unlink(out)
+            rep["evaluations"] += r.get("evaluations", 0)
+            for k, v in r.get("counters", {}).items():
+                rep["counters"]["tsan_" + k] = rep["counters"].get("tsan_" + k, 0) + v
+            rep["violations"] += r.get("violations", [])
+            for k, v in r.get("violation_counts", {}).items():
+                rep["violation_counts"][k] = rep["violation_counts"].get(k, 0) + v
+        except Exception:
+            rep["inconclusive"] += 1
+    return rep
